@@ -87,6 +87,11 @@ Theorem C06_wcsset_s : forall c d dmax value m, wf_cfg c -> d <> 0 -> 1 <= dmax 
   wp (wcsset_s c d dmax value BOS_UNKNOWN) m (wset_post c (wchar_w c) d dmax (value mod 4294967296) m).
 Proof. exact wcsset_s_spec. Qed.
 Print Assumptions C06_wcsset_s.
+
+Theorem C06_wcsnset_s : forall c d dmax value n m, wf_cfg c -> d <> 0 -> 1 <= dmax <= rmax_wstr c -> wc_signed value <= UNICODE_MAX -> 0 <= n <= dmax ->
+  wp (wcsnset_s c d dmax value n BOS_UNKNOWN) m (wnset_post c (wchar_w c) d dmax n (value mod 4294967296) m).
+Proof. exact wcsnset_s_spec. Qed.
+Print Assumptions C06_wcsnset_s.
 Theorem C06_strnset_s : forall c d dmax value n m, d <> 0 -> 1 <= dmax <= rmax_str c -> 0 <= value <= 255 -> 0 <= n <= dmax ->
   wp (strnset_s c d dmax value n BOS_UNKNOWN) m (set_post c d dmax n value m).
 Proof. exact strnset_s_spec. Qed.
